@@ -128,20 +128,31 @@ func HIKESAKeysRefuse() {
 // HChildKeys (C08): GenerateKeyForChildSA against the independent prf+(SK_d, Ni|Nr) and slice order;
 // the IKE SA's Prf_d object starts with Param(4) octets of junk already written (whatever an earlier
 // use left behind), and a second derivation on the same object gives the same keys again.
-// Params: prf idx, encr idx, integ idx (3 = none), nonce length, junk length.
+// Params: prf idx, encr idx, integ idx (3 = none), nonce length, junk length (+1000: the Child SA key
+// object is built by NewChildSAKeyByProposal from its own proposal instead of a struct literal).
 func HChildKeys() {
 	pi, ei, ii, ln, junk := vr.Param(0), vr.Param(1), vr.Param(2), vr.Param(3), vr.Param(4)
 	skd := vr.Bytes(vPrfLen[pi])
 	ike := &IKESAKey{PrfInfo: prf.StrToType(vPrfNames[pi]), SK_d: skd}
 	ike.Prf_d = ike.PrfInfo.Init(skd)
-	if junk > 0 {
-		ike.Prf_d.Write(vr.Bytes(junk))
+	if junk%1000 > 0 {
+		ike.Prf_d.Write(vr.Bytes(junk % 1000))
 	}
 	nonce := vr.Bytes(ln)
+	viaProposal := junk >= 1000 // the Child SA key object comes from the negotiated-proposal constructor
 	mk := func() *ChildSAKey {
 		c := &ChildSAKey{EncrKInfo: encr.StrToKType(vEncrNames[ei])}
 		if ii < 3 {
 			c.IntegKInfo = integ.StrToKType(vIntegNames[ii])
+		}
+		if viaProposal && ii < 3 {
+			p, err := c.ToProposal()
+			vr.Assert("c08.proposal.noerr", err == nil)
+			back, err := NewChildSAKeyByProposal(p)
+			vr.Assert("c08.proposal.back.noerr", err == nil && back != nil)
+			if err == nil && back != nil {
+				return back
+			}
 		}
 		return c
 	}
